@@ -345,6 +345,22 @@ reg("C06", Spec(
     ["sequences of several malformed datagrams are not explored (one injection per execution)", "the UDP transport's own receive path is not on the explored path"],
     floor=(50000, 8), timeout=(400, 7200), mem_gb=8))
 
+reg("C15", sim(
+    "exploration",
+    "(a) Function level: for each RxO policy (durability 4x4, deadline 3x3, latency budget 3x3, liveliness (3 kinds x 3 leases)^2, "
+    "reliability, destination order, ownership, presentation (2 scopes x coherent x ordered)^2, data representation 5x5 lists) the "
+    "full offered x requested product, combined with every one of the 256 subsets of the other eight policies being made "
+    "incompatible, is passed to both real compatibility functions (writer-side verdict about a discovered reader, reader-side "
+    "verdict about a discovered writer); the set of offending policy ids must equal the DDS RxO table's and both sides must agree. "
+    "(b) End to end between two real participants: every single-policy offered x requested pair, and every pair of partition name "
+    "lists of length ≤ 2 over {'', a, ab, a*, ?b, [ab], [!a]b, b, abc} (46 x 46; pairs whose only possible match is pattern-vs-"
+    "pattern are skipped: undefined by DDS): matched on both sides iff compatible and partitions match under the DDS rule "
+    "(reference: a 40-line textbook fnmatch), and an incompatible pair is notified once through on_offered_incompatible_qos "
+    "naming the offending policy.",
+    "(a) 296 policy value pairs x 256 subsets x 2 functions; (b) full enumeration of OP choice vectors; distinct = (policy, verdict, "
+    "number of other incompatible policies) classes + distinct observation traces",
+    "DESIGN.md §4 C15", floor=(20000, 50)))
+
 API_RULE = ("every operation history up to the stated depth over the stated alphabet (one OP choice point per step, all "
             "alternatives at every step = full enumeration, no deviation bound); each history is one execution against a real "
             "participant and its worker; every return value is compared with a reference contract model; distinct = distinct "
